@@ -245,7 +245,7 @@ pub fn c16_from_array<const N: usize>() {
         (kt, vt)
     });
     let m: Map<Tok, Tok, N> = Map::from(arr);
-    if md.n < N { vf::reach(1); } else { vf::reach(2); }
+    if md.n < N { if N >= 2 { vf::reach(1); } } else { vf::reach(2); }
     observe(&m, &md);
     well_formed(&m);
     finish(m);
@@ -291,7 +291,7 @@ pub fn c16_set_from_array<const N: usize>() {
     while i < N { ks[i] = vf::any_u8(); i += 1; }
     let arr: [Tok; N] = core::array::from_fn(|i| { let kt = Tok::tagged(ks[i], i as u8); md.insert(ks[i], 0, kt.serial(), 0); kt });
     let s: Set<Tok, N> = Set::from(arr);
-    if md.n < N { vf::reach(1); } else { vf::reach(2); }
+    if md.n < N { if N >= 2 { vf::reach(1); } } else { vf::reach(2); }
     observe_set(&s, &md);
     finish_set(s);
 }
